@@ -33,6 +33,19 @@ def scale(a, b=2, /, c=3, *rest, k=None):
   return Rec('scale', [('a', a), ('b', b), ('c', c), ('k', k)], tuple(rest), {})
 
 
+def dims(*d, scale_by=1):
+  """Only *args: an argument factory over it binds everything positionally."""
+  return Rec('dims', [('scale_by', scale_by)], tuple(d), {})
+
+
+class QuotaError(Exception):
+  """A user-defined exception class: a configurable callable like any other class."""
+
+  def __init__(self, what='quota', limit=1):
+    super().__init__(what, limit)
+    self.rec = Rec('QuotaError', [('what', what), ('limit', limit)], (), {})
+
+
 def plain_helper(n):
   """NOT configurable: exempted via auto_config.exempt / called through exempt()."""
   return n * 2 + 1
